@@ -352,8 +352,14 @@ class PipeStandin:
     """A processing pipeline as far as Backend uses it: '+' (None is an identity), vars, state, apply(), query post-processing."""
     log: list = []
 
+    # priorities as a user may set them: they order what the *resolver* combines and say nothing about the fixed order
+    # backend → user → output format (adverse values: sorting by them would reverse that order)
+    PRIORITIES = {"backend": 50, "user": -1, "fmt-default": 10, "fmt-test": 20}
+
     def __init__(self, names, vars_=None):
         self.names, self.vars, self.state, self.applied_to = list(names), dict(vars_ or {}), {}, []
+        self.priority = self.PRIORITIES.get(self.names[0], 0) if len(self.names) == 1 else 0
+        self.name = "same"
 
     def __add__(self, o):
         if o is None:
@@ -382,6 +388,7 @@ def backend_with_real_init(ctx, user_pipeline=True):
     prog = ctx.prog
     B = "sigma.conversion.base.Backend"
     env: dict = converter_env()
+    env.setdefault("ProcessingPipeline", lambda *a, **k: PipeStandin([]))     # the empty pipeline
     IK = {"behaviours": (StandinSigmaError, KeyError), "max_steps": 8000}
     inits: list = []
     attrs = {"backend_processing_pipeline": PipeStandin(["backend"], {"from_backend": 1}), "processing_pipeline": PipeStandin(["user"], {"from_user": 1}) if user_pipeline else None,
